@@ -17,6 +17,7 @@ RULE = (
     "stacked/averaged helpers on 1..4 samples; NaN parameters must make the helpers raise; inf / NaN parameters of ONE treatment must leave every experiment that does not contain it bit-for-bit unchanged; for the interaction type the first sample's single-effect table is then updated in place (as the model does on new data) and the same screen and subset objects are predicted again. Non-trivial = screen has a control in each column "
     "somewhere and at least one true combination. distinct = distinct case JSON."
     ' Between the two predictions of the predict / merge / predict history the collection helpers are called on the plate with a collection holding a NaN sample.'
+    ' Also: views whose selection array changes in place between two predictions (observed-part view and a reveal on its screen; a caller refilling its mask).'
 )
 ASSUMPTIONS = [
     "'logistic of the mean' is checked literally for the additive type; for the interaction type the documented relation exp(mean)*clip(product of single effects) clipped to [.01,.99] is used",
@@ -403,6 +404,35 @@ def check_case(case):
                 allm = np.asarray(mm.predict_mean_all(screen=pa, thetas=holder), dtype=float)
                 if not np.isnan(allm).any():
                     require(allm.shape == (len(holder.thetas), int(now.sum())), "mean_all.plate_after_merge", lambda: "predict_mean_all on a merged plate has shape %r for %d rows" % (allm.shape, int(now.sum())))
+
+    # views whose selection changes IN PLACE between two predictions: the observed-part view of a screen on which a plate is then
+    # revealed (it shares the screen's mask), and a view made from a caller's mask that the caller then refills
+    alias = S.build_screen(sc, treatment_mapping=tm, sample_mapping=sm)
+    with np.errstate(all="ignore"):
+        th0 = holder.thetas[0]
+        whole_a = np.asarray(th0.predict_conditional_mean(alias), dtype=float)
+        ov = alias.subset_observed()
+        un_pl = [p_ for p_ in alias.plates if not bool(np.any(p_.observation_mask))]
+        if ov is not None and un_pl:
+            th0.predict_conditional_mean(ov), th0.predict_viability(ov)
+            sel_ = np.asarray(un_pl[case["perm_seed"] % len(un_pl)].selection_vector)
+            alias.set_observed(sel_, np.full(int(sel_.sum()), 0.5))
+            now = np.asarray(ov.selection_vector).copy()
+            got = np.asarray(th0.predict_conditional_mean(ov), dtype=float)
+            require(got.shape == (int(now.sum()),) and _close(got, whole_a[now]), "mean.view_after_reveal", lambda: "the observed-part view, predicted on, then a plate revealed on its screen, predicted on again: %d values for %d selected rows; values %r, whole-screen entries %r" % (got.size, int(now.sum()), got.tolist()[:6], whole_a[now].tolist()[:6]))
+            var_ = np.asarray(th0.predict_conditional_variance(ov), dtype=float)
+            require(var_.shape == got.shape, "variance.view_after_reveal", lambda: "variance has %d entries for %d selected rows" % (var_.size, int(now.sum())))
+        if n >= 2:
+            k_ = 1 + case["perm_seed"] % (n - 1)
+            mine = np.zeros(n, dtype=bool)
+            mine[:k_] = True
+            v_ = alias.subset(mine)
+            th0.predict_conditional_mean(v_)
+            mine[:] = False
+            mine[n - k_ :] = True  # the caller reuses its mask array for the next selection (same number of rows)
+            now = np.asarray(v_.selection_vector).copy()
+            got = np.asarray(th0.predict_conditional_mean(v_), dtype=float)
+            require(got.shape == (int(now.sum()),) and _close(got, whole_a[now]), "mean.view_after_mask_reuse", lambda: "a view made from a caller's mask, predicted on, the mask refilled by the caller, predicted on again gives %r; the whole-screen entries of the rows it selects now are %r" % (got.tolist()[:6], whole_a[now].tolist()[:6]))
 
     c0 = bool(np.any(tid[:, 0] == -1))
     c1 = bool(np.any(tid[:, 1] == -1))
